@@ -65,7 +65,7 @@ fn sdk_decode_supply(bytes: &[u8], supply: u64) -> Result<MarketModel, String> {
 
 fn debug_fields(s: &str) -> BTreeMap<String, String> {
     fn skip_ws(b: &[u8], i: &mut usize) { while *i < b.len() && (b[*i] == b' ' || b[*i] == b'\n' || b[*i] == b',') { *i += 1; } }
-    fn ident(b: &[u8], i: &mut usize) -> String { let st = *i; while *i < b.len() && (b[*i].is_ascii_alphanumeric() || b[*i] == b'_') { *i += 1; } String::from_utf8_lossy(&b[st..*i]).into() }
+    fn ident(b: &[u8], i: &mut usize) -> String { let st = *i; while *i < b.len() && (b[*i].is_ascii_alphanumeric() || b[*i] == b'_' || b[*i] == b'-') { *i += 1; } String::from_utf8_lossy(&b[st..*i]).into() }
     fn value(b: &[u8], i: &mut usize, prefix: &str, out: &mut BTreeMap<String, String>) {
         skip_ws(b, i);
         let st = *i;
@@ -313,7 +313,14 @@ fn quiet<T>(f: impl FnOnce() -> T) -> T {
     f()
 }
 
-fn run_action_case_inner(seed: u64) -> Result<String, String> {
+struct Ctx {
+    info: &'static AccountInfo<'static>, loader: AccountLoader<'static, Market>, store_loader: AccountLoader<'static, Store>,
+    mint_info: &'static AccountInfo<'static>, tp: &'static AccountInfo<'static>, recv: &'static AccountInfo<'static>, ev: &'static AccountInfo<'static>,
+    prices: Prices<u128>, supply: u64, store_key: Pubkey, r: Rng,
+}
+
+/// a seeded market (program account + everything around it); `fees` overrides the two swap fee factors
+fn build_ctx(seed: u64, fees: Option<(u128, u128)>) -> Result<Ctx, String> {
     use anchor_spl::token::spl_token;
     use spl_token::solana_program::program_pack::Pack;
     let mut r = Rng::new(seed ^ 0xAC71);
@@ -329,6 +336,7 @@ fn run_action_case_inner(seed: u64) -> Result<String, String> {
     for k in ["swap_impact_positive_factor", "swap_impact_negative_factor", "swap_fee_factor_for_positive_impact", "swap_fee_factor_for_negative_impact"] {
         cfg.push((k.to_string(), pick_factor(&mut r)));
     }
+    if let Some((p, n)) = fees { for (k, v) in cfg.iter_mut() { if k == "swap_fee_factor_for_positive_impact" { *v = p; } if k == "swap_fee_factor_for_negative_impact" { *v = n; } } }
     cfg.push(("swap_impact_exponent".into(), if r.chance(1, 2) { unit } else { 2 * unit }));
     cfg.push(("swap_fee_receiver_factor".into(), unit / 100 * r.range(0, 100) as u128));
     for k in ["max_pool_amount_for_long_token", "max_pool_amount_for_short_token"] { cfg.push((k.to_string(), if r.chance(1, 8) { r.range(1, 9) as u128 * 100_000_000_000 } else { u64::MAX as u128 })); }
@@ -360,7 +368,6 @@ fn run_action_case_inner(seed: u64) -> Result<String, String> {
         let mint = spl_token::state::Mint { mint_authority: Some(store_key).into(), supply, decimals: 9, is_initialized: true, freeze_authority: None.into() };
         spl_token::state::Mint::pack(mint, &mut mint_info.try_borrow_mut_data().unwrap()).map_err(|e| format!("mint {e}"))?;
     }
-    let mint_acc: Account<'static, anchor_spl::token::Mint> = Account::try_from(mint_info).map_err(|e| format!("mint-account {e}"))?;
     let tp: &'static AccountInfo<'static> = Box::leak(Box::new(h_store::leak_account(spl_token::ID, h_store::pk(0), 0, false, false)));
     let recv: &'static AccountInfo<'static> = Box::leak(Box::new(h_store::leak_account(h_store::pk(9), spl_token::ID, 0, false, true)));
     // prices (unit prices with a small spread)
@@ -368,6 +375,23 @@ fn run_action_case_inner(seed: u64) -> Result<String, String> {
     let long_price = price(&mut r, 100_000_000_000);
     let short_price = if pure { long_price } else { price(&mut r, 20_000_000_000) };
     let prices = Prices { index_token_price: long_price, long_token_price: long_price, short_token_price: short_price };
+    Ok(Ctx { info, loader, store_loader, mint_info, tp, recv, ev, prices, supply, store_key, r })
+}
+
+fn set_mint_supply(ctx: &Ctx, supply: u64) -> Result<Account<'static, anchor_spl::token::Mint>, String> {
+    use anchor_spl::token::spl_token;
+    use spl_token::solana_program::program_pack::Pack;
+    let mint = spl_token::state::Mint { mint_authority: Some(ctx.store_key).into(), supply, decimals: 9, is_initialized: true, freeze_authority: None.into() };
+    spl_token::state::Mint::pack(mint, &mut ctx.mint_info.try_borrow_mut_data().unwrap()).map_err(|e| format!("mint {e}"))?;
+    Account::try_from(ctx.mint_info).map_err(|e| format!("mint-account {e}"))
+}
+
+fn run_action_case_inner(seed: u64) -> Result<String, String> {
+    let ctx = build_ctx(seed, None)?;
+    let Ctx { info, loader, store_loader, tp, recv, ev, prices, supply, .. } = &ctx;
+    let (info, tp, recv, ev, prices, supply) = (*info, *tp, *recv, *ev, *prices, *supply);
+    let mint_acc = set_mint_supply(&ctx, supply)?;
+    let mut r = ctx.r.clone();
     // the action
     let kind = r.below(3);
     let a1 = match r.below(4) { 0 => 0u128, 1 => r.range(1, 5000) as u128, _ => r.range(1, 400) as u128 * 500_000_000 };
@@ -410,6 +434,97 @@ fn run_action_case_inner(seed: u64) -> Result<String, String> {
         (Ok(p), Err(e)) => Err(format!("{what}: program ok `{p}` but sdk failed `{e}`")),
         (Err(e), Ok(s)) => Err(format!("{what}: sdk ok `{s}` but program failed `{e}`")),
     }
+}
+
+
+// ------------------------------------------------------------------------------------- histories
+fn kind_of(c: &str) -> Option<(SwapPricingKind, u8)> {
+    Some(match c { "S" => (SwapPricingKind::Swap, 0), "D" => (SwapPricingKind::Deposit, 1), "W" => (SwapPricingKind::Withdrawal, 2), "H" => (SwapPricingKind::Shift, 3), _ => return None })
+}
+
+/// swap fee factors (positive, negative impact) the SDK model would apply right now
+fn sdk_fee_factors(m: &MarketModel) -> String {
+    match m.swap_fee_params() { Ok(p) => { let f = debug_fields(&format!("{p:?}")); format!("{}/{}", f.get("positive_impact_fee_factor").cloned().unwrap_or_default(), f.get("negative_impact_fee_factor").cloned().unwrap_or_default()) } Err(_) => "?".into() }
+}
+
+/// A HISTORY on ONE long-lived SDK `MarketModel` against the program's model re-created per step from the stored market.
+/// steps (comma separated):  `K:op` op under `with_swap_pricing(K, ..)`;  `-:op` plain op (the model's own pricing kind);
+/// `K>J:op` nested scopes;  `K!` a scope whose closure fails.   K,J in S(wap) D(eposit) W(ithdrawal) H(shift);
+/// op in swap0 | swap1 | dep | wd.  Returns the fee factors the SDK used per op step.
+fn run_history(pos: u128, neg: u128, seed: u64, steps: &str) -> Result<String, String> {
+    let ctx = build_ctx(seed, Some((pos, neg)))?;
+    let mut supply = ctx.supply;
+    let mut r = ctx.r.clone();
+    let rows = all_rows();
+    let bytes0 = ctx.info.try_borrow_data().unwrap().to_vec();
+    let mut sdk = sdk_decode_supply(&bytes0, supply)?;
+    let initial = format!("{:?}", sdk.swap_pricing());
+    let prices = ctx.prices;
+    let mut used: Vec<String> = Vec::new();
+    for (i, st) in steps.split(',').enumerate() {
+        let here = |what: &str| format!("step {} `{st}`: {what}", i + 1);
+        // gmsol-model actions are not transactional: a failed `execute` leaves partial writes in the model it ran on (the
+        // program discards its revertible market instead), so a failed step is undone by going back to this copy
+        let backup = sdk.clone();
+        if let Some(k) = st.strip_suffix('!') {
+            let (kk, _) = kind_of(k).ok_or("bad step")?;
+            let _: Result<(), ()> = sdk.with_swap_pricing(kk, |_m| Err(()));
+        } else {
+            let (scope, op) = st.split_once(':').ok_or("bad step")?;
+            let amt: u128 = match r.below(3) { 0 => r.range(1, 5000) as u128, _ => r.range(1, 200) as u128 * 500_000_000 };
+            let amt2: u128 = if r.chance(1, 2) { 0 } else { r.range(1, 200) as u128 * 500_000_000 };
+            let wd: u128 = if supply == 0 { 0 } else { r.range(1, supply.min(1_000_000_000_000)) as u128 / 8 };
+            let run = |m: &mut MarketModel, used: &mut Vec<String>| -> Result<String, String> {
+                used.push(sdk_fee_factors(m));
+                match op {
+                    "swap0" => m.swap(false, amt, prices).and_then(|d| d.execute()).map(|x| format!("{x:?}")).map_err(|e| e.to_string()),
+                    "swap1" => m.swap(true, amt, prices).and_then(|d| d.execute()).map(|x| format!("{x:?}")).map_err(|e| e.to_string()),
+                    "dep" => m.deposit(amt, amt2, prices).and_then(|d| d.execute()).map(|x| format!("{x:?}")).map_err(|e| e.to_string()),
+                    "wd" => m.withdraw(wd, prices).and_then(|d| d.execute()).map(|x| format!("{x:?}")).map_err(|e| e.to_string()),
+                    _ => Err("bad op".into()),
+                }
+            };
+            // the pricing kind the PROGRAM is asked to use: the innermost explicit scope, else the model's resting kind (Swap)
+            let (sdk_res, prog_kind): (Result<String, String>, u8) = if scope == "-" {
+                (run(&mut sdk, &mut used), 0)
+            } else if let Some((k, j)) = scope.split_once('>') {
+                let ((kk, _), (jj, jn)) = (kind_of(k).ok_or("bad step")?, kind_of(j).ok_or("bad step")?);
+                let mut inner_restored = String::new();
+                let res = sdk.with_swap_pricing(kk, |m| { let x = m.with_swap_pricing(jj, |m2| run(m2, &mut used)); inner_restored = format!("{:?}", m.swap_pricing()); x });
+                if inner_restored != format!("{kk:?}") { return Err(here(&format!("after the INNER with_swap_pricing returned the model's kind is {inner_restored}, not the outer scope's {kk:?}"))); }
+                (res, jn)
+            } else {
+                let (kk, kn) = kind_of(scope).ok_or("bad step")?;
+                (sdk.with_swap_pricing(kk, |m| run(m, &mut used)), kn)
+            };
+            let action = match op { "swap0" => hook40::Action::Swap(false, amt), "swap1" => hook40::Action::Swap(true, amt), "dep" => hook40::Action::Deposit(amt, amt2), _ => hook40::Action::Withdraw(wd) };
+            let mint_acc = set_mint_supply(&ctx, supply)?;
+            let _ = h_store::take_events();
+            let prog_res = hook40::run_action_with_kind(&ctx.loader, &ctx.store_loader, &mint_acc, ctx.tp, ctx.recv, ctx.ev, prices, action, prog_kind);
+            let _ = h_store::take_events();
+            match (&prog_res, &sdk_res) {
+                (Ok(p), Ok(s)) => {
+                    if p != s { return Err(here(&format!("reports differ: program `{p}` sdk `{s}`"))); }
+                    if op == "dep" {
+                        // `minted: N` of the report is what the program would mint
+                        if let Some(pos) = p.find("minted: ") { let n: String = p[pos + 8..].chars().take_while(|c| c.is_ascii_digit()).collect(); supply = supply.saturating_add(n.parse::<u128>().unwrap_or(0).min(u64::MAX as u128) as u64); }
+                    }
+                    if op == "wd" { supply = supply.saturating_sub(wd as u64); }
+                }
+                (Err(_), Err(_)) => { sdk = backup; }
+                (Ok(p), Err(e)) => return Err(here(&format!("program ok `{p}` but sdk failed `{e}`"))),
+                (Err(e), Ok(s2)) => return Err(here(&format!("sdk ok `{s2}` but program failed `{e}`"))),
+            }
+            let prog_after = ctx.loader.load().map_err(|e| format!("load {e}"))?;
+            let a = dump(&*prog_after, &|x| prog_after.max_pool_value_for_deposit(x).ok(), &rows);
+            let b = dump(&sdk, &|x| sdk.max_pool_value_for_deposit(x).ok(), &rows);
+            for ((ka, va), (_, vb)) in a.iter().zip(b.iter()) { if va != vb { return Err(here(&format!("state differs at {ka}: program `{va}` sdk `{vb}`"))); } }
+        }
+        // the scoped setter must have restored the model's own pricing kind — also after a failing closure / nested scopes
+        let now = format!("{:?}", sdk.swap_pricing());
+        if now != initial { return Err(here(&format!("with_swap_pricing did not restore the pricing kind: model is left in {now}, was {initial}"))); }
+    }
+    Ok(used.join(";"))
 }
 
 // ------------------------------------------------------------------------------------- layouts
@@ -458,6 +573,10 @@ fn exec_inner(t: &[&str]) -> Option<String> {
             let after = account_bytes(&m);
             match changed(&before, &after) { Some((o, 1)) => format!("ok {o} {}", before[o] ^ after[o]), Some((o, l)) => format!("wide {o} {l}"), None => "unchanged".into() }
         }
+        ["c40", "hist", pos, neg, seed, steps] => {
+            let (pos, neg, seed): (u128, u128, u64) = (pos.parse().ok()?, neg.parse().ok()?, seed.parse().ok()?);
+            match quiet(|| run_history(pos, neg, seed, steps)) { Ok(used) => format!("same {used}"), Err(e) => format!("diff {e}") }
+        }
         ["c40", "action", seed] => match run_action_case(seed.parse().ok()?) { Ok(_) => "same".into(), Err(e) => format!("diff {e}") },
         ["c40", "randbytes", seed] => match compare_decoded(&random_market_bytes(seed.parse().ok()?)) { Ok(_) => "same".into(), Err(e) => format!("diff {e}") },
         _ => return None,
@@ -495,6 +614,7 @@ fn oracle(req: &str, resp: &str) -> Verdict {
         }
         ["c40", "layout", "size", _] => { let p: Vec<&str> = resp.split(' ').collect(); if p.len() == 3 && p[0] == "ok" && p[1] == p[2] { Verdict::Ok } else { Verdict::Fail(format!("account size differs between the program and the SDK declaration: {resp}")) } }
         ["c40", "layout", _, _] => if resp.starts_with("ok ") { Verdict::Ok } else { Verdict::Fail(format!("a write through the program's key is not where the SDK layout reads it: {resp}")) },
+        ["c40", "hist", ..] => if resp.starts_with("same") { Verdict::Ok } else { Verdict::Fail(format!("a history on one SDK model diverges from the program (or the scoped pricing setter does not restore): {resp}")) },
         ["c40", "action", _] => if resp == "same" { Verdict::Ok } else { Verdict::Fail(format!("an action gives different results on the program's market and on the SDK model: {resp}")) },
         ["c40", "randbytes", _] => if resp == "same" { Verdict::Ok } else { Verdict::Fail(format!("random account bytes decode differently: {resp}")) },
         _ => Verdict::NoOracle,
@@ -548,6 +668,21 @@ fn main() {
         for f in MarketConfigFlag::iter() { v.push(format!("c40 layout flag {f}")); }
         for i in 0..(extra / 4).max(10) { v.push(format!("c40 randbytes {}", cli.seed * 100_000 + i)); }
         for i in 0..extra * 2 { v.push(format!("c40 action {}", cli.seed * 1_000_000 + i)); }
+        // histories on one long-lived SDK model: scoped pricing kinds interleaved with plain operations, non-zero swap fees
+        let unit: u128 = 100_000_000_000_000_000_000;
+        for i in 0..extra {
+            let (pos, neg) = (unit / 100_000 * r.range(1, 300) as u128, unit / 100_000 * r.range(1, 500) as u128);
+            let n = r.range(2, 6);
+            let mut steps: Vec<String> = Vec::new();
+            for _ in 0..n {
+                let op = *r.pick(&["swap0", "swap1", "swap0", "swap1", "dep", "wd"]);
+                let k = *r.pick(&["S", "D", "W", "H"]);
+                steps.push(match r.below(8) { 0 | 1 | 2 => format!("-:{op}"), 3 | 4 => format!("{k}:{op}"), 5 => format!("H:{op}"), 6 => format!("{k}>{}:{op}", r.pick(&["S", "D", "W", "H"])), _ => format!("{k}!") });
+            }
+            // most histories end with ordinary swaps: that is where a kept temporary kind shows
+            steps.push("-:swap1".into()); steps.push("-:swap0".into());
+            v.push(format!("c40 hist {pos} {neg} {} {}", cli.seed * 1_000_000 + i, steps.join(",")));
+        }
         v
     };
     for req in reqs {
